@@ -140,3 +140,15 @@ Example C04_source_in_the_domain_and_rendered :
   in_domain (bs "{{ x = 1 }}@if(true){{ x = 2 }}{{ y = 5 }}{{ y }}@end{{ x }}"%string) = true /\
   evaluate_string cx0 (bs "{{ x = 1 }}@if(true){{ x = 2 }}{{ y = 5 }}{{ y }}@end{{ x }}"%string) [] = RenderOk (bs "51"%string).
 Proof. split; vm_compute; reflexivity. Qed.
+
+(* ---- the same on the specification (Proofs/SpecScopes.v): whatever a list of statements does, it
+   leaves every scope but the innermost as it was; a nested block leaves the whole chain as it was *)
+From TW Require Import SpecMono ReserveSplice SpecScopes.
+
+Theorem C04_specification_writes_the_innermost_scope_only f sc ns o s sc' :
+  sc <> [] -> run_nodes model_call_spec f sc ns = TOk o s sc' -> tl sc' = tl sc /\ sc' <> [].
+Proof. intros Hne H. pose proof (proj1 (spec_scopes f) sc ns Hne) as K. rewrite H in K. exact K. Qed.
+
+Theorem C04_specification_block_restores_the_scopes f sc ns o s sc' :
+  sc <> [] -> run_block model_call_spec f sc ns = TOk o s sc' -> sc' = sc.
+Proof. intros Hne H. pose proof (proj1 (proj2 (spec_scopes f)) sc ns Hne) as K. rewrite H in K. exact K. Qed.
